@@ -198,6 +198,16 @@ CHECKS = {
         "not XML-DSig). One open finding (VSIX declares inclusive C14N, exclusive is applied).",
    technique="TLA+ transcription of xml-exc-c14n checked by TLC; generated documents replayed on the real canonicaliser with the JDK as second oracle",
    engine="xml"),
+ "C11": dict(cat="exploration", design="§4 C11",
+   text="spec/Malformed.tla states the guarded-parser rule (a length, offset, count or chain link is checked against what is really there "
+        "before it is used) and TLC shows that the guarded step never crashes, over-allocates or hangs (6 negative controls); the module "
+        "also holds the case table: 12 container formats x structural fields x 9 boundary classes x 4 entry points. Binding: each case "
+        "is applied to real signed/unsigned artifacts by harness field locators and the entry point (verify, probe, client transform, the "
+        "real server's /sign) runs in an isolated child; crash, out-of-memory, hang, > 1 GiB RSS or a server-recovered panic is a violation.",
+   note="Exploration over structured boundary corruptions of one field at a time; says nothing about unstructured inputs. Two open findings "
+        "(third-party RPM header parser).",
+   technique="TLA+ guarded-parser model and case table checked/enumerated by TLC; cases applied to real artifacts, entry points run in isolated child processes",
+   engine="malformed"),
 }
 
 NOT_YET = {}
